@@ -112,8 +112,8 @@ func (v *ScriptView) writeModifySQLForATable(
 	}
 	// DELETE COLUMNS
 	v.stringBuilder.WriteString(dropColumnQueries)
-	// ADD A PRIMARY KEY
-	if primaryKeyChanged {
+	// ADD A PRIMARY KEY (none if the new version has no key columns)
+	if primaryKeyChanged && len(primaryKeys) > 0 {
 		pk := v.getPrimaryKeyString(primaryKeys)
 		v.stringBuilder.WriteString(fmt.Sprintf("ALTER TABLE %s ADD CONSTRAINT %s PRIMARY KEY(%s);\n",
 			tableName, pkConstraintName, pk))
